@@ -346,10 +346,13 @@ def frameText : Frame → String
 /-- message bookkeeping for the real-trace c01 predicate: a receive result arrived -/
 def LinkSim.monRecv (l : LinkSim) (res : List String) : LinkSim :=
   match res with
+  -- a new message starts while a chunked one is still being read: the caller answered `Received::Chunks` by
+  -- calling `recv_any` again instead of draining with `recv_chunk`, i.e. it declined the rest of that message
   | ["data", h] => match parseHex h with
-    | some b => { l with mDelivered := l.mDelivered ++ [b], mPartial := none }
+    | some b => { l with mDelivered := l.mDelivered ++ [b], mPartial := none, mAbandoned := l.mAbandoned || l.mPartial.isSome }
     | none => l
-  | ["chunks"] => { l with mPartial := some [] }
+  | ["chunks"] => { l with mPartial := some [], mAbandoned := l.mAbandoned || l.mPartial.isSome }
+  | "requests" :: _ => { l with mPartial := none, mAbandoned := l.mAbandoned || l.mPartial.isSome }
   | ["chunk", h] => match parseHex h, l.mPartial with
     | some b, some acc => { l with mPartial := some (acc ++ b) }
     | _, _ => l
@@ -587,7 +590,7 @@ def Sim.pmOp (s : Sim) (ws : List String) : Sim :=
     | some id => { s with pm := { pm with sentOn := pm.sentOn ++ [(hx, id, name)] } }
     | none => s
   | [op, k, _, name] =>
-    if op == "recv" || op == "recvany" || op == "recvmsg" then { s with pm := { pm with recvOn := pm.recvOn ++ [(k, name)] } } else s
+    if op == "recv" || op == "recvany" || op == "recvmsg" || op == "recvskip" then { s with pm := { pm with recvOn := pm.recvOn ++ [(k, name)] } } else s
   | _ => s
 
 /-- c05 on API results: `forward_requests_paired` observed end to end.  The connect of the half with id `x`
@@ -775,6 +778,12 @@ def Sim.onOp (s : Sim) (line : Nat) (ws : List String) : Sim :=
       -- the receiver of port `name` on `side` is the receiving half of link name>other(side)
       match s.link? name (other side) with
       | some l =>
+        -- `recv_any` / `recv` while a chunked message is being read: the caller declines the rest of that message
+        -- (outside the documented protocol, so outside the LTS, whose `recvAny` label is disabled then; the executable
+        -- functions `recvAnyStep` / `anyFrame` cover it: the remaining chunks are taken from the queue, their credit is
+        -- returned, and they are discarded)
+        let l := if op != "recvchunk" && l.st.partialMsg.isSome then
+            { l with st := { l.st with partialMsg := none }, mAbandoned := true, mPartial := none } else l
         let l := { l with recvCall := some (k, if op == "recvchunk" then 1 else if op == "recv" then 2 else 0) }
         let (l', rs) := l.runRecv []
         let s1 := s.setLink name (other side) l'
